@@ -93,6 +93,20 @@ func runMeshScenario(c *Ctx, fl meshFlavor, nops int) {
 					hdr = c.R.Bytes(c.R.Pick(1, 2, 3, 5))
 				}
 			}
+			if (fl.name == "bus" || fl.name == "star") && c.R.Intn(3) == 0 {
+				// the application hands the cooked socket a message that still carries a header (relayed by hand from a raw
+				// socket, say): it is not the application's business on a cooked socket — every peer gets the payload
+				switch c.R.Intn(3) {
+				case 0:
+					if len(pipes) > 0 {
+						hdr = be32(uint32(pipes[c.R.Intn(len(pipes))])) // looks like "arrived on that pipe" to the raw layer
+					}
+				case 1:
+					hdr = c.R.Bytes(8)
+				default:
+					hdr = c.R.Bytes(c.R.Pick(1, 4, 5))
+				}
+			}
 			if fl.name == "xstar" {
 				hdr = []byte{0, 0, 0, byte(c.R.Intn(3))}
 				if c.R.Intn(6) == 0 {
